@@ -4,6 +4,8 @@
 package c13
 
 import (
+	logging "github.com/ipfs/go-log/v2"
+
 	"fmt"
 	"os"
 	"path/filepath"
@@ -84,6 +86,22 @@ func raceEnabledNote() string {
 // Run is the check entry point.
 func Run(r *vk.Run) {
 	world.Silence()
+	if n := os.Getenv("C13_DEV_RESTART_ROUNDS"); n != "" {
+		if os.Getenv("C13_DEV_LOG") != "" {
+			logging.SetupLogging(logging.Config{Format: logging.PlaintextOutput, Stderr: true, Level: logging.LevelError})
+			logging.SetAllLoggers(logging.LevelError)
+			for _, sub := range []string{"header/p2p", "header/sync", "header/store", "sync", "pubsub"} {
+				_ = logging.SetLogLevel(sub, "debug")
+			}
+		}
+		// development aid: only the clean-restart round, n times, in this process
+		var k int
+		fmt.Sscanf(n, "%d", &k)
+		for i := 0; i < k; i++ {
+			fullStackCleanRestart(r, i)
+		}
+		return
+	}
 	r.Rule = "(a) concurrent worlds: a real aggregator Manager (production, reaper, header and data submission, DA inclusion loops; real single sequencer; mempool injector) and a real full node Manager (DA scan, both P2P store loops, sync, DA inclusion) run as goroutines against one DA double with random latency and faults, datastore yields at every call, block time 2-5 ms, DA block time 3-10 ms, lazy/normal mode, with/without pending limit, until 60 | 300 blocks; afterwards the chain, convergence, submission and inclusion oracles run on the final state (prefix forms); (b) stop scenarios by logical position (start-up delay with genesis in the future; inside a blocked DA submit; inside execution; header/data event channel full via DA and via P2P with a stalled consumer; mid-scan; idle): cancel, release every double, every loop must return within 10 s; (c) the real FullNode.Run (libp2p on loopback) aggregator + full node, stopped at seeded instants. Everything runs in child processes of the -race build: a race report or crash kills the child and is reported with the case it was running. non-trivial = a world in which at least three loops made progress, or a stop scenario whose position was reached; distinct by interleaving signature (number of distinct windows of 6 consecutive loop-labelled operations) resp. scenario"
 	r.Assume(raceEnabledNote())
 	r.Assume("a goroutine still inside the repository's code 10 s after cancel, with every double released and all timers of the configuration <= 20 ms, is hung, not slow")
